@@ -20,13 +20,13 @@ def run(ctx):
     ctx.run_shards(b, ["--mode", "launch"] + ch, label="launch matrix")
     ctx.run_shards(b, ["--mode", "args", "--len", "4" if q else "6"] + ch, label="argument vectors")
     c = ctx.counters
-    ev = sum(c.get(k, 0) for k in ("argument_vectors", "command_lines", "launches", "io_runs", "exit_code_runs", "two_process_runs", "reuse_runs"))
+    ev = sum(c.get(k, 0) for k in ("argument_vectors", "command_lines", "launches", "io_runs", "exit_code_runs", "two_process_runs", "reuse_runs", "late_writer_runs"))
     cov = {"evaluations": int(ev), "distinct_nontrivial": int(c.get("distinct_nontrivial", 0)),
            "rule": "Arguments: every argument vector of <= %d strings over {-a -ab -abo -oX -o -abc - -- --aa --out=X --out --opt --opt=X --zz --aa=X X '' -ba --out= --o=X --=X} "
                    "(each string and the vector in exactly sized heap blocks under ASan) against glibc getopt_long in return-in-order mode (\"-:abo:\", exact long names) "
                    "mapped to (character, argument) sequences; command lines: every line of <= 3 words over {a a\\\\b \"\" \"a b\" \"a\\\\\"b\" a\"b c\"d \"a\\\\b\"} through "
                    "Process::open(commandLine) against a helper child that echoes its argv, with a reference splitter and a watchdog; launch: 5 argument vectors x "
-                   "2 overloads x 3 environments, 4 stream combinations with stdout x 6 payload sizes around the pipe capacity (stdin digest, stdout/stderr to EOF), exit codes 0..255; 16 overlapping pairs of processes (second opened before / after close(stdin) of the first, first joined / killed / destroyed, either finishing first); 36 two-child histories on one Process object (3 x 3 stream sets, first child joined / killed, stdin closed or not)"
+                   "2 overloads x 3 environments, 4 stream combinations with stdout x 6 payload sizes around the pipe capacity (stdin digest, stdout/stderr to EOF), exit codes 0..255; 16 overlapping pairs of processes (second opened before / after close(stdin) of the first, first joined / killed / destroyed, either finishing first); 36 two-child histories on one Process object (3 x 3 stream sets, first child joined / killed, stdin closed or not); 6 late-writer runs (join entered before the child writes)"
                    % (4 if q else 6),
            "exhaustive": True}
     return ctx.finish("exploration", cov, ["GNU-only getopt features (prefix matching of long names, short options with optional arguments) are outside the statement",
